@@ -26,14 +26,14 @@ def mk_backoff(maxre, fct):
         from vf.simloop import SimLoop
         from aiocoap.message import Message, Direction
         from aiocoap.numbers.constants import TransportTuning
-        from aiocoap.numbers.types import CON, ACK, RST
+        from aiocoap.numbers.types import CON, ACK, RST, NON
         from aiocoap.numbers.codes import GET, EMPTY
         from aiocoap import error
         R = mmkit.setup()
 
-        def h(ack_timeout: int, t0: int, t_reply: int, kind: int) -> None:
+        def h(ack_timeout: int, t0: int, t_reply: int, kind: int, prior: int) -> None:
             assert 1 <= ack_timeout <= 100000 and ack_timeout <= t0 <= ack_timeout * fct
-            assert 0 <= t_reply <= 100000 * 3 * 200 and 0 <= kind <= 5
+            assert 0 <= t_reply <= 100000 * 3 * 200 and 0 <= kind <= 5 and 0 <= prior <= 3
             R.draw = t0
             R.calls = []
 
@@ -50,6 +50,17 @@ def mk_backoff(maxre, fct):
                 m.token = b"\x01"
                 m.mtype = CON
                 rst = []
+                if prior:
+                    # history: the peer used the message ID our message is going to get (the two directions number
+                    # their messages independently): 1 NON request, 2 empty ACK, 3 CON request
+                    pm = Message(code=EMPTY if prior == 2 else GET, _mtype=(NON, ACK, CON)[prior - 1], _mid=mm.message_id,
+                                 _token=b"\x55", transport_tuning=TT())
+                    pm.remote = r
+                    pm.direction = Direction.INCOMING
+                    mm.dispatch_message(pm)
+                    loop.run_ready()
+                    for hnd in list(loop.pending_timers()):
+                        hnd.cancel()            # the peer's exchange (empty-ACK / lifetime timers) is not the subject here
                 mm.send_message(m, lambda: rst.append(loop.time()))
                 assert R.calls == [(ack_timeout, ack_timeout * fct)]
                 deadlines = [t0 * (2 ** (i + 1) - 1) for i in range(maxre + 1)]  # retransmissions, then give-up
@@ -171,7 +182,8 @@ def obligations(tier):
             functions=FUNCS,
             symbolic={"ACK_TIMEOUT": "[1,100000]", "t0 (first time-out draw)": "[ACK_TIMEOUT, ACK_TIMEOUT*ARF]",
                       "t_reply (arrival instant of the reply)": "[0, 6e7]",
-                      "kind": "0 ACK / 1 RST / 2 ACK wrong MID / 3 ACK wrong source / 4 RST wrong source / 5 none"},
+                      "kind": "0 ACK / 1 RST / 2 ACK wrong MID / 3 ACK wrong source / 4 RST wrong source / 5 none",
+                      "prior": "history: 0 none / the peer earlier sent a NON request, empty ACK or CON request carrying the same message ID"},
             concrete={"MAX_RETRANSMIT": k, "ACK_RANDOM_FACTOR": f},
             stubs=["random.uniform -> explicit draw", "SimLoop", "RecTokenManager/RecMessageInterface"]))
     for k in cl:
